@@ -33,3 +33,8 @@ claim("C06",
       "Every token sequence up to a stated length over the full alphabet and over focus alphabets (Boolean/grouping, ranges/brackets, unary operators), random printed trees and their 1-3-token mutations, with and without a default field: whenever Parse accepts, a memoised matcher must find a derivation of the harness's token sequence from the returned tree in the documented grammar (each term token exactly one typed leaf, in order; each operator token consumed by one node of the matching kind; brackets pair around non-empty groups).",
       "The matcher is the trusted executable grammar; precedence is ignored (any derivation counts) so C06 cannot raise C05/C07 alarms; token meanings come from construction or from the harness's value-decoding spec M1.",
       "DESIGN.md section 4, C06")
+claim("C11",
+      "exhaustive token sequences + printed/mutated trees; metamorphic pair Parse(q) vs Parse(q, WithDefaultField(f))",
+      "For every enumerated / generated query and a default-field name that does not occur in it: acceptance is the same with and without the option; erasing every f: scoping from the scoped tree gives exactly the unscoped tree; no bare term remains in operand position; f never appears inside another field's value, range bound or list.",
+      "The erase / bare-term / re-scoping walks are harness code (trusted). Queries that use f explicitly are outside the property.",
+      "DESIGN.md section 4, C11")
